@@ -36,7 +36,7 @@ def mk(ctx, vals):
     return SBytes(vals) if ctx.symbolic else bytes(vals)
 
 
-def o1_roundtrip(ctx, what, hops, name_len=5):
+def o1_roundtrip(ctx, what, hops, name_len=5, leave_block=False):
     m = fb()
     macs = []
 
@@ -65,6 +65,13 @@ def o1_roundtrip(ctx, what, hops, name_len=5):
                 ctx.assume(c < 128)  # ASCII: decoded as str
             tx.name = mk(ctx, name)
             exp["name"] = name
+            if leave_block:
+                # the name belongs to the block it was set in: after leaving and re-entering, the advertisement carries no name
+                # (and every length in it is computed without one)
+                tx.__exit__()
+                tx.__enter__()
+                ctx.check(tx.name is None, "leaving the block forgets the name")
+                exp["name"] = None
             bat = m.BatteryServiceData()
             lvl = ctx.int("battery", 0, 255)
             bat.data = lvl
@@ -310,6 +317,7 @@ def jobs(tier):
     for what in ("name+battery", "pa+temperature", "url", "raw", "reference-encoder"):
         for hops in ((0, 1) if tier == "quick" else (0, 1, 2)):
             out.append(Job("O1-round-trip", o1_roundtrip, dict(what=what, hops=hops), cost=10))
+    out.append(Job("O1-round-trip-after-leaving-the-block", o1_roundtrip, dict(what="name+battery", hops=0, name_len=6, leave_block=True), cost=10))
     for nl in ((0, 1, 10) if tier == "quick" else (0, 1, 2, 3, 4, 6, 7, 8, 9, 10)):  # 10 + battery fills the advertisement
         out.append(Job("O1-round-trip", o1_roundtrip, dict(what="name+battery", hops=0, name_len=nl), cost=10))
     for L in ((6, 7, 8, 9) if tier == "quick" else (6, 7, 8, 9, 10, 11)):
